@@ -17,6 +17,8 @@ pub(crate) struct Html5Serializer<'a, N: Normalizer> {
     cdata_section_names: &'a [NameId],
     fullname_serializer: FullnameSerializer<'a>,
     normalizer: N,
+    // elements for which we added a default namespace declaration of our own
+    forced_default_namespace: Vec<Node>,
 }
 
 fn html_matches_suppress(
@@ -65,6 +67,7 @@ impl<'a, N: Normalizer> Html5Serializer<'a, N> {
             cdata_section_names,
             fullname_serializer,
             normalizer,
+            forced_default_namespace: Vec::new(),
         }
     }
 
@@ -139,8 +142,11 @@ impl<'a, N: Normalizer> Html5Serializer<'a, N> {
                     .must_be_serialized_unprefixed(namespace_id)
                     && !self.fullname_serializer.has_empty_prefix(namespace_id)
                 {
-                    // add the empty prefix for the namespace
-                    self.fullname_serializer.add_empty_prefix(namespace_id);
+                    // add the empty prefix for the namespace, for this
+                    // element and its content only
+                    self.fullname_serializer
+                        .push(vec![(self.xot.empty_prefix(), namespace_id)]);
+                    self.forced_default_namespace.push(node);
                     // we also need to serialize the additional xmlns
                     let local_name = self.xot.local_name_str(element.name_id);
                     let namespace_uri = self.xot.namespace_str(namespace_id);
@@ -182,6 +188,10 @@ impl<'a, N: Normalizer> Html5Serializer<'a, N> {
                         ),
                     }
                 };
+                if self.forced_default_namespace.last() == Some(&node) {
+                    self.forced_default_namespace.pop();
+                    self.fullname_serializer.pop(true);
+                }
                 self.fullname_serializer
                     .pop(self.xot.has_namespace_declarations(node));
                 r
